@@ -214,6 +214,96 @@ func (e *Exec) uf2(name string, a, b *Term) *Term {
 	return e.c.App(name, "Int", a, b)
 }
 
+// singleBit: the literal 2^k
+func singleBit(t *Term) (uint, bool) {
+	v, ok := litInt(t)
+	if !ok || v.Sign() <= 0 {
+		return 0, false
+	}
+	k := uint(v.BitLen() - 1)
+	if pow2(k).Cmp(v) == 0 {
+		return k, true
+	}
+	return 0, false
+}
+
+// bitOf: bit k of the non-negative integer x, as 0 or 1
+func (e *Exec) bitOf(x *Term, k uint) *Term {
+	if b := e.knownBit(x, k, 0); b != nil {
+		return b
+	}
+	return e.c.Mod(e.c.Div(x, e.c.BigInt(pow2(k))), e.c.Int(2))
+}
+
+// bitInfo: the term equals base with the listed bits forced (field-mask arithmetic x | 2^k, x &^ 2^k).
+type bitInfo struct {
+	base *Term
+	set  map[uint]*Term // bit -> Int 0/1
+}
+
+func (e *Exec) recordBits(r, base *Term, k uint, v *Term) {
+	if e.bits == nil {
+		e.bits = map[int]*bitInfo{}
+	}
+	e.bits[strip(r).id] = &bitInfo{base: base, set: map[uint]*Term{k: v}}
+}
+
+// knownBit resolves bit k of x symbolically through mask updates, literals, ite and read-over-write.
+func (e *Exec) knownBit(x *Term, k uint, depth int) *Term {
+	c := e.c
+	if depth > 64 {
+		return nil
+	}
+	s := strip(x)
+	if v, ok := litInt(s); ok && v.Sign() >= 0 {
+		return c.Int(int64(v.Bit(int(k))))
+	}
+	if bi, ok := e.bits[s.id]; ok {
+		if b, ok := bi.set[k]; ok {
+			return b
+		}
+		if b := e.knownBit(bi.base, k, depth+1); b != nil {
+			return b
+		}
+		return c.Mod(c.Div(bi.base, c.BigInt(pow2(k))), c.Int(2))
+	}
+	if s.kind != kApp {
+		return nil
+	}
+	switch s.op {
+	case "ite":
+		a := e.knownBit(s.args[1], k, depth+1)
+		b := e.knownBit(s.args[2], k, depth+1)
+		if a == nil && b == nil {
+			return nil
+		}
+		if a == nil {
+			a = c.Mod(c.Div(s.args[1], c.BigInt(pow2(k))), c.Int(2))
+		}
+		if b == nil {
+			b = c.Mod(c.Div(s.args[2], c.BigInt(pow2(k))), c.Int(2))
+		}
+		return c.Ite(s.args[0], a, b)
+	case "select":
+		arr := strip(s.args[0])
+		if arr.kind == kApp && arr.op == "ite" {
+			a := e.knownBit(c.Select(arr.args[1], s.args[1]), k, depth+1)
+			b := e.knownBit(c.Select(arr.args[2], s.args[1]), k, depth+1)
+			if a == nil && b == nil {
+				return nil
+			}
+			if a == nil {
+				a = c.Mod(c.Div(c.Select(arr.args[1], s.args[1]), c.BigInt(pow2(k))), c.Int(2))
+			}
+			if b == nil {
+				b = c.Mod(c.Div(c.Select(arr.args[2], s.args[1]), c.BigInt(pow2(k))), c.Int(2))
+			}
+			return c.Ite(arr.args[0], a, b)
+		}
+	}
+	return nil
+}
+
 func isPow2Minus1(v *big.Int) (uint, bool) {
 	if v.Sign() <= 0 {
 		return 0, false
@@ -294,6 +384,14 @@ func (e *Exec) intBinop(st *State, ins ssa.Instruction, op token.Token, a, b *Te
 		e.declPow2()
 		return c.Div(a, c.App("pow2", "Int", b))
 	case token.AND:
+		if uns {
+			if k, ok := singleBit(b); ok {
+				return c.Mul(c.BigInt(pow2(k)), e.bitOf(a, k))
+			}
+			if k, ok := singleBit(a); ok {
+				return c.Mul(c.BigInt(pow2(k)), e.bitOf(b, k))
+			}
+		}
 		if v, ok := litInt(b); ok {
 			if k, ok := isPow2Minus1(v); ok {
 				if uns {
@@ -327,6 +425,19 @@ func (e *Exec) intBinop(st *State, ins ssa.Instruction, op token.Token, a, b *Te
 		if r := e.disjointOr(a, b); r != nil {
 			return r
 		}
+		if uns {
+			// x | 2^k  =  x + 2^k * (1 - bit_k(x))
+			if k, ok := singleBit(b); ok {
+				r := c.Add(a, c.Mul(c.BigInt(pow2(k)), c.Sub(c.Int(1), e.bitOf(a, k))))
+				e.recordBits(r, a, k, c.Int(1))
+				return r
+			}
+			if k, ok := singleBit(a); ok {
+				r := c.Add(b, c.Mul(c.BigInt(pow2(k)), c.Sub(c.Int(1), e.bitOf(b, k))))
+				e.recordBits(r, b, k, c.Int(1))
+				return r
+			}
+		}
 		t := e.uf2("bv.or", a, b)
 		if !t.bound {
 			c.AddFact(t, c.Implies(c.And(c.Ge(a, c.Int(0)), c.Ge(b, c.Int(0))), c.And(c.Ge(t, a), c.Ge(t, b), c.Le(t, c.Add(a, b)))))
@@ -341,6 +452,14 @@ func (e *Exec) intBinop(st *State, ins ssa.Instruction, op token.Token, a, b *Te
 		}
 		return t
 	case token.AND_NOT:
+		if uns {
+			// x &^ 2^k  =  x - 2^k * bit_k(x)
+			if k, ok := singleBit(b); ok {
+				r := c.Sub(a, c.Mul(c.BigInt(pow2(k)), e.bitOf(a, k)))
+				e.recordBits(r, a, k, c.Int(0))
+				return r
+			}
+		}
 		t := e.uf2("bv.andnot", a, b)
 		if !t.bound {
 			c.AddFact(t, c.Implies(c.And(c.Ge(a, c.Int(0)), c.Ge(b, c.Int(0))), c.And(c.Le(c.Int(0), t), c.Le(t, a))))
@@ -456,7 +575,7 @@ func (e *Exec) convert(st *State, ins ssa.Instruction, v Val, from, to types.Typ
 		arr := c.App("str.bytes", arrSort("Int", "Int"), v.T)
 		if !arr.bound {
 			j := c.BoundVar("j", "Int")
-			c.AddFact(arr, c.Forall([]*Term{j}, c.Eq(c.Select(arr, j), c.App("str.at", "Int", v.T, j))))
+			c.AddFact(arr, c.ForallPat([]*Term{j}, c.Eq(c.Select(arr, j), c.App("str.at", "Int", v.T, j)), c.Select(arr, j)))
 		}
 		saved := e.frameOff
 		e.frameOff = true
@@ -494,8 +613,8 @@ func (e *Exec) strOfSlice(st *State, s *Term, et types.Type) *Term {
 	if !t.bound {
 		c.AddFact(t, c.Eq(c.App("str.len", "Int", t), ln))
 		j := c.BoundVar("j", "Int")
-		c.AddFact(t, c.Forall([]*Term{j}, c.Implies(c.And(c.Le(c.Int(0), j), c.Lt(j, ln)),
-			c.Eq(c.App("str.at", "Int", t, j), c.Select(arr, c.Add(off, j))))))
+		c.AddFact(t, c.ForallPat([]*Term{j}, c.Implies(c.And(c.Le(c.Int(0), j), c.Lt(j, ln)),
+			c.Eq(c.App("str.at", "Int", t, j), c.Select(arr, c.Add(off, j)))), c.App("str.at", "Int", t, j)))
 	}
 	return t
 }
